@@ -56,6 +56,7 @@ REQUIRED_STATS = [
     "deleted_glyphs_dropped_by_projection",
 ]
 REQUIRED_FAMILIES = [
+    "ctx-start-state", "ctx-mark-chain",
     "nonctx", "ctx-current", "ctx-mark", "ctx-end-of-text", "ctx-da-redispatch", "ctx-da-twice", "ctx-mark-twice",
     "ctx-delete-then-nonctx", "lig-2", "lig-2-da", "lig-3", "lig-overlap", "lig-nested", "lig-gap", "lig-then-ctx",
     "features", "types-0-5", "coverage-vertical-only", "coverage-both", "coverage-descending-ctx",
@@ -237,7 +238,7 @@ def run(ctx):
             continue
         e = by_i[m["i"]]
         pe = e if e["ev"] == "Prog" else prog_of[m["i"]]
-        family = "recorded-" + pe["a"]["kind"]
+        family = "recorded"
         key = _key(family, m.get("bug"), m.get("bugtags") or [], m["got"])
         rec_explained[key] = rec_explained.get(key, 0) + 1
         if (e["case"], key) in rec_seen:
